@@ -270,7 +270,7 @@ fn worker(ctx: &Ctx, out: &mut Out) {
             return;
         }
     };
-    for case in ctx.cases(ctx.tier.pick(320, 8000)) {
+    for case in ctx.cases(ctx.tier.pick(640, 8000)) {
         ctx.checkpoint(out);
         ctx.breadcrumb(case, "scenario");
         let mut r = Rng::derive(ctx.seed, 0xC10_0000_0000 ^ case);
